@@ -838,3 +838,51 @@ def k_compose(eng, which):
         return True, "eight characters differ from the four pillars of the instant: " + nat
     r = run_kernel(eng, "09.d/B/compose/%s" % which, "09.d", "all four pillars arbitrary (0..59 each)", build, None, replay)
     return _finish(r, holder["ctx"]) if "ctx" in holder else r
+
+
+# ------------------------------------------------------------------------------------------------ stepping the day / instant views (11.j)
+def k_view_next(eng, which):
+    """SixtyCycleDay::next(n) is the view of the civil day n days later; SixtyCycleHour::next(n) the view of the instant n seconds later"""
+    owner, field, base_ty, ctor = {"day": ("SixtyCycleDay", "solar_day", "SolarDay", "from_solar_day"), "hour": ("SixtyCycleHour", "solar_time", "SolarTime", "from_solar_time")}[which]
+    holder = {}
+
+    class Stepped:
+        def __init__(self, t):
+            self.t = t
+
+    def build(eng):
+        fields = struct_fields(os.path.join(REPO, "src/tyme/sixtycycle.rs"), owner)
+        fn = M.find_fn(eng.fns, "next", "&" + owner, 2)
+        ctx = _ctx(eng, {})
+        holder.update(ctx=ctx)
+        rec = Rec(ctx, "self", owner)
+        inner = rec.field(fields.index(field), base_ty)
+        n = ctx.fresh_value("n", "isize")
+        model = ctx.model
+        base = model.call
+        built = {}
+
+        def call(c, fr, callee, args, path):
+            a = [model.deref(c, x) for x in args]
+            if callee == "<%s as Tyme>::next" % base_ty and a[0] is inner and isinstance(a[1], T):
+                return True, Stepped(a[1])
+            if callee == "%s::%s" % (owner, ctor) and isinstance(a[0], Stepped):
+                r = Rec(c, "built_view", owner)
+                built[id(r)] = a[0].t
+                return True, r
+            return base(c, fr, callee, args, path)
+        model.call = call
+        paths = ctx.run(fn, [("refrec", rec), n])
+
+        def shape(p):
+            return None if id(p.ret) in built else "result is not the view of this %s stepped" % base_ty
+        return ctx, paths, ["(<= (- 1000000000000) %s 1000000000000)" % n.s], (lambda p: [("stepped-by-n", "(= %s %s)" % (built[id(p.ret)].s, n.s))]), shape
+
+    def replay(eng, model):
+        nat = eng.native("view_next_scan", 0 if which == "day" else 1)
+        if nat in ("NONE", "PANIC", "UNKNOWN", ""):
+            return nat == "PANIC", "native scan: " + (nat or "no output")
+        return True, "stepping the view is not stepping its %s: %s" % (base_ty, nat)
+
+    r = run_kernel(eng, "11.j/B/%s-view-next" % which, "11.j", "every view, |n| <= 10^12", build, None, replay)
+    return _finish(r, holder["ctx"]) if "ctx" in holder else r
